@@ -67,6 +67,7 @@ def gen_cases(rng, tier, rnd):
         elif r < 0.8:
             a = {**genpda.ambiguous_stack_pda(rng), 'keep_gamma': True} if rng.random() < 0.12 else genpda.abstract_pda(rng)
             s, rank = genfa.rename(a, rng)
+            s['dd'] = rng.random() < 0.7        # else a plain dict that has only the keys of the transitions
             lim = rng.choice([20, 60, 200, 1000])
             maxlen = 4
             if lim == 1000 and not rpda.closure_sizes(s, '', 300)[1]:
